@@ -480,6 +480,22 @@ class Ceremony:
                 ok = wsc is not None and tm.spk_p2wsh(tm.sha256(wsc)) == true_spk
             if not ok:
                 fail("C11", "R5", "input_script_mismatch_" + (self.plan.get("tamper") or {}).get("kind", "corruption"), f"input {k} was summarised although its attached redeem/witness script does not commit to the output it spends")
+        # R5 (outputs): a script attached to an output commits, by hash, to that output's scriptPubKey
+        for k, om in enumerate(pm["outputs"]):
+            if k >= len(tx["outs"]):
+                break
+            spk = tx["outs"][k]["spk"]
+            red = psbtmap.get(om, 0x00)
+            wsc = psbtmap.get(om, 0x01)
+            red = red[0][1] if red else None
+            wsc = wsc[0][1] if wsc else None
+            ok = True
+            if red is not None:
+                ok = spk == tm.spk_p2sh(tm.hash160(red))
+            if ok and wsc is not None:
+                ok = spk == tm.spk_p2wsh(tm.sha256(wsc)) or (red is not None and red == tm.spk_p2wsh(tm.sha256(wsc)))
+            if not ok:
+                fail("C11", "R5", "output_script_mismatch_" + (self.plan.get("tamper") or {}).get("kind", "corruption"), f"output {k} was summarised although the redeem/witness script attached to it does not commit to its scriptPubKey")
         # R2: everything labelled change must be what the wallet can spend
         tr.oracle("R2")
         quorum_m = s.m
@@ -1130,6 +1146,17 @@ class Ceremony:
                 # the derivation record of the replaced key would name a key that is not in the script: drop it
                 last = pks[-1]
                 pm["outputs"][ch_pos] = [kv for kv in om if kv[0] != b"\x02" + last]
+        elif kind == "foreign_script_on_spend_output":
+            # a payee output (no derivations) gets an unrelated script record attached: witness-program shaped or multisig, as redeem
+            # or witness script
+            cands = [k for k, o in enumerate(s.outputs) if not o["change"]]
+            if not cands:
+                return None
+            k_out = cands[a % len(cands)]
+            om = pm["outputs"][k_out]
+            v = (a // 7) % 4
+            rec = [(b"\x00", tm.spk_p2wpkh(bytes([a % 256]) * 20)), (b"\x00", tm.spk_p2wsh(bytes([a % 256]) * 32)), (b"\x00", tm.multisig_script(1, evil[:1])), (b"\x01", tm.multisig_script(1, evil[:1]))][v]
+            pm["outputs"][k_out] = [kv for kv in om if kv[0][:1] != rec[0]] + [rec]
         elif kind == "foreign_redeem_on_p2wsh_input":
             # a p2wsh input documented by its witness UTXO, with an unrelated redeem script attached and no witness script
             if s.kind != "p2wsh":
@@ -1351,7 +1378,7 @@ def execute(plan, prop, trace):
 
 # ------------------------------------------------------------------------------------------------ generation
 
-TAMPER_KINDS = ["malformed_multisig_change", "malformed_multisig_change", "foreign_redeem_on_p2wsh_input", "weak_quorum_dust_input", "weak_quorum_dust_input", "swap_change_spk", "flip_change_spk_byte", "foreign_script", "foreign_fingerprint", "wrong_path", "one_cosigner_keys", "one_cosigner_keys_spoofed_fps", "utxo_amount", "other_prev_tx", "changed_quorum", "second_change",
+TAMPER_KINDS = ["foreign_script_on_spend_output", "foreign_script_on_spend_output", "malformed_multisig_change", "malformed_multisig_change", "foreign_redeem_on_p2wsh_input", "weak_quorum_dust_input", "weak_quorum_dust_input", "swap_change_spk", "flip_change_spk_byte", "foreign_script", "foreign_fingerprint", "wrong_path", "one_cosigner_keys", "one_cosigner_keys_spoofed_fps", "utxo_amount", "other_prev_tx", "changed_quorum", "second_change",
                 "redeem_for_other_input", "forge_change", "forge_change", "forge_change", "nonwitness_utxo_foreign_script", "both_utxo_records_disagree", "swap_change_spk_type", "swap_change_spk_type", "p2sh_input_as_witness_utxo"]
 
 
@@ -1530,14 +1557,14 @@ def enumerate_plans(tier, prop, seed):
         # the catalogue against both wallet types
         for kind in ("p2sh", "p2wsh"):
             for tk in [None] + TAMPER_KINDS:
-                for rep in range((1 if tier == "quick" else 4) * (3 if tk == "weak_quorum_dust_input" else 5 if tk == "malformed_multisig_change" else 2 if tk == "foreign_redeem_on_p2wsh_input" else 1)):
+                for rep in range((1 if tier == "quick" else 4) * (3 if tk == "weak_quorum_dust_input" else 5 if tk == "malformed_multisig_change" else 4 if tk == "foreign_script_on_spend_output" else 2 if tk == "foreign_redeem_on_p2wsh_input" else 1)):
                     plan = base(kind, r.choice([1, 2]) if tk != "weak_quorum_dust_input" else 2, 2 if tier == "quick" else r.choice([2, 3]))
                     plan["creator"] = {"segwit_flag": False, "xpubs": rep % 2 == 1, "unknown": False, "helper": kind == "p2sh" and rep % 2 == 0}
                     plan["sign_method"] = "keys"
                     plan["topology"] = "review"
                     st = {"op": "send", "src": "C", "dst": "S0"}
                     if tk:
-                        st["tamper"] = {"kind": tk, "a": (5 * r.randrange(2000) + rep % 5) if tk == "malformed_multisig_change" else (2 * r.randrange(5000) + rep % 2) if tk == "foreign_redeem_on_p2wsh_input" else r.randrange(10000) if tk != "weak_quorum_dust_input" else 3 * r.randrange(3000) + rep % 3}
+                        st["tamper"] = {"kind": tk, "a": (5 * r.randrange(2000) + rep % 5) if tk == "malformed_multisig_change" else (2 * r.randrange(5000) + rep % 2) if tk == "foreign_redeem_on_p2wsh_input" else (7 * (4 * r.randrange(300) + rep % 4) + r.randrange(7)) if tk == "foreign_script_on_spend_output" else r.randrange(10000) if tk != "weak_quorum_dust_input" else 3 * r.randrange(3000) + rep % 3}
                         plan["tamper"] = st["tamper"]
                     plan["steps"] = [st]
                     plan["enum"] = "catalogue"
